@@ -135,6 +135,23 @@ def check_value(bib, e, sp, inplace):
                     out.append((clause, {"value": text, "string": as_string, "key": key, "opts": o, "kept": x["kept"],
                                          "observed": got, "expected": want}))
                     continue
+                # a second round on the SAME blocks: remove, add, remove, add gives what remove, add gave (whatever the
+                # first round left on the blocks)
+                if x["kept"] and not (bool(v) and v[-1] == "ESC" and sp["ESC"][-1] in '}"'):
+                    try:
+                        lib = mw_remove(bib, inplace).transform(mk_lib(bib, key, text, as_string))
+                        lib = mw_add(bib, o, inplace).transform(lib)
+                        lib = mw_remove(bib, inplace).transform(lib)
+                        got2 = val_of(mw_add(bib, o, inplace).transform(lib), key, as_string)
+                    except Exception as ex:  # noqa
+                        out.append(("enclose_raised", {"value": text, "string": as_string, "key": key, "opts": o, "history": "remove, add, remove, add",
+                                                      "exc": f"{type(ex).__name__}: {ex}"}))
+                        continue
+                    if not same(got2, want):
+                        out.append(("restore" if x["reuse"] else "enclose",
+                                    {"value": text, "string": as_string, "key": key, "opts": o, "history": "remove, add, remove, add",
+                                     "observed": got2, "expected": want}))
+                        continue
                 # a field with a record followed by a field added after the removal (no record): the first is restored,
                 # the second gets the default enclosing / integer rule - records do not carry over between fields
                 if x["kept"] and x["reuse"] and not as_string and v != ["I"]:
@@ -288,7 +305,7 @@ def run(chk: core.Check):
                     pairs = [(b0.value, b1.value, b2.value, "@string")]
                 for v0, v1, v2, key in pairs:
                     t3 += 1
-                    t = v0.strip()
+                    t = v0          # "restores the original value exactly": the value as the scanner produced it, blanks included
                     want1 = t[1:-1] if len(t) >= 2 and ((t[0] == "{" and t[-1] == "}") or (t[0] == '"' and t[-1] == '"')) else t
                     if v1 != want1:
                         report(chk, "strip_one_layer", {"value": v0, "key": key, "observed": v1, "expected": want1})
